@@ -248,7 +248,7 @@ CHECKS.update({
              "every list/map representation constructible through the public API (13+1 map, 6+1 list), 19 boundary scalars, and every value tree of height <= 3 with "
              "<= 2 children per node (thorough: also 4 leaf classes and every such tree below 1-2 further containers, depth 5) is exported by the real JSON exporter; "
              "encoding/json must accept the document and a token-level decode must yield arrays in order, exactly the key set without duplicates, and every scalar as "
-             "the JSON string of its string form; every document is kept as returned and must be unchanged after the next value has been exported. Exhaustive within these bounds (5.2 M / 53 M cases).",
+             "the JSON string of its string form; every document is kept as returned and must be unchanged after the next value has been exported; every small tree is also exported directly after each of 12 exports that fail or panic half way. Exhaustive within these bounds (5.2 M / 53 M cases).",
         note="Trusted: encoding/json as the standard parser, strconv for the documented string form of scalars, the tree builder internal/exptree. Domain: valid UTF-8, "
              "distinct keys. Not decided: all binary trees of height >= 4, strings longer than 3 symbols.",
         technique="bounded-exhaustive enumeration of value trees x representations, decided by decoding the real output with an independent parser",
